@@ -10,8 +10,9 @@ from .facts import VERIF
 EXTRA_FILES = {
     'C08': ['dbus/dbus-server-socket.c', 'dbus/dbus-server.c', 'dbus/dbus-server-unix.c',
             'dbus/dbus-server-debug-pipe.c', 'bus/config-parser.c', 'dbus/dbus-sysdeps-unix.c'],
-    'C06': ['bus/config-parser-common.c'],
+    'C06': ['bus/config-parser-common.c', 'dbus/dbus-sysdeps-unix.c', 'dbus/dbus-credentials.c'],
     'C11': ['dbus/dbus-connection.c'],
+    'C05': ['dbus/dbus-message.c'],
     'C19': ['bus/activation-helper-bin.c', 'bus/config-parser-trivial.c'],
     'C14': ['bus/config-parser.c', 'bus/config-parser-common.c', 'bus/policy.c', 'bus/config-loader-expat.c'],
 }
@@ -412,6 +413,13 @@ WIDTH_REVIEWED = {
 }
 
 
+# functions whose narrowing stores were reviewed: the value is range-checked before it is stored
+NARROWING_REVIEWED = {
+    'set_limit': 'the configured value was checked to fit in an int',
+    'append_rule_from_element': 'min_fds / max_fds were parsed and range-checked before they are stored',
+}
+
+
 def _width(t):
     if not t:
         return None
@@ -444,6 +452,14 @@ def field_widths(ck, prog):
         tops = []
         for b, i, ev in f.events():
             for lhs, how, rhs in written_lvalues(ev):
+                if how == '=' and rhs is not None and mem(lhs) and isinstance(rhs, dict) \
+                        and rhs.get('k') in ('call', 'ref') and f.name not in NARROWING_REVIEWED:
+                    wl, wr = _width(lhs.get('t')), _width(rhs.get('t'))
+                    if wl and wr and wl < wr:
+                        n += 1
+                        r.violation('%s:%s<-%s' % (f.name, estr(lhs), estr(rhs)[:40]), f.name, f.file, ev['line'],
+                                    '%s (%s, %d bits) receives %s (%s, %d bits): the field is narrower than the value it '
+                                    'is given' % (estr(lhs), lhs.get('t'), wl, estr(rhs)[:60], rhs.get('t'), wr))
                 if how == '=' and rhs is not None and mem(lhs) and mem(rhs):
                     wl, wr = _width(lhs.get('t')), _width(rhs.get('t'))
                     if wl and wr:
@@ -1248,6 +1264,46 @@ def condition_functions(ck, prog):
         r.skip('no compound condition with a counterpart in the reference profile in %s' % ', '.join(sorted(files)))
 
 
+# ---------------------------------------------------------------------------
+# a value that is handed on was obtained somewhere
+
+def never_set_values(ck, prog):
+    from .cfg import estr, is_ref, written_lvalues
+    pid = ck.pid
+    files = anchor_files(pid)
+    r = ck.rule(pid + '.U', 'what is handed on was obtained somewhere, in this property\'s files: a local that is passed to '
+                'a callee is not one whose only assignments are its "unset" / "invalid" sentinel constant', 'TS',
+                breaks='the code that fetched the value (the peer\'s gid, a position, a handle) was removed or moved under '
+                       'a condition that is never true in this build, and the consumer silently works with "unset"',
+                floor=0)
+    n = 0
+    for f in prog.funcs.values():
+        if f.file not in files or not prog.is_production(f):
+            continue
+        writes = {}
+        for b, i, ev in f.events():
+            for lhs, how, rhs in written_lvalues(ev):
+                if (is_ref(lhs) or 'k' not in lhs) and lhs.get('kind') == 'local' and 'id' in lhs:
+                    writes.setdefault(lhs['id'], []).append((how, rhs, lhs.get('name'), ev['line']))
+        for vid, ws in writes.items():
+            vals = [(h, x) for h, x, nm, ln in ws if not (h == 'decl' and x is None)]
+            if not vals:
+                continue
+            sentinel_only = all(h in ('=', 'decl') and isinstance(x, dict) and is_int(x) and x.get('name')
+                                and ('UNSET' in x['name'] or x['name'].endswith('_INVALID')) for h, x in vals)
+            if not sentinel_only:
+                continue
+            for b, i, c in f.calls():
+                if any(is_ref(a) and a.get('id') == vid for a in c['args']):
+                    n += 1
+                    r.violation('%s:%s' % (f.name, ws[0][2]), f.name, f.file, c['line'],
+                                '%s is handed to %s but is never given a value other than %s in %s' % (
+                                    ws[0][2], c.get('callee'), estr(vals[0][1]), f.name))
+                    break
+    if n == 0:
+        r.ok('no-sentinel-only-value-handed-on')
+
+
 def run(ck, prog):
     error_discipline(ck, prog)
     onebit_stores(ck, prog)
@@ -1260,3 +1316,4 @@ def run(ck, prog):
     more_profiles(ck, prog)
     list_walks(ck, prog)
     condition_functions(ck, prog)
+    never_set_values(ck, prog)
